@@ -4,6 +4,8 @@ import MoneroModel.Proofs.KeysSound
 import MoneroModel.Proofs.KeysComplete
 import MoneroModel.Proofs.KeysRef
 import MoneroModel.Proofs.EdwardsLawful
+import MoneroModel.Model.KeyOps
+import MoneroModel.Proofs.KeyOps
 /-! C13 — "Keys are accepted exactly when canonical, and key arithmetic is the group law".
 Proved here, about the model `Monero.Keys` (which mirrors `PrivateKey::from_slice` / `PublicKey::from_slice` including dalek's
 permissive `decompress` followed by the recompress-and-compare of key.rs): the acceptance conditions and the byte / text /
@@ -135,6 +137,143 @@ set_option maxRecDepth 100000 in
 example : publicAccept (toBytesLE Ed.Gy 32) = true := by decide +kernel
 
 
+/-! ### the curve is Ed25519 (RFC 8032 §5.1): the literals of `Ref/Ed25519.lean` are pinned by their defining equations -/
+section Constants
+/-- `p = 2^255 − 19`, `l = 2^252 + 27742317777372353535851937790883648493` -/
+theorem C13_p_l_are_ed25519 : Ed.p = 2 ^ 255 - 19 ∧ Ed.l = 2 ^ 252 + 27742317777372353535851937790883648493 := ⟨rfl, rfl⟩
+/-- `d = −121665/121666 (mod p)`, as the reduced residue -/
+theorem C13_d_is_ed25519 : (121666 * Ed.d + 121665) % Ed.p = 0 ∧ Ed.d < Ed.p := by decide
+/-- `sqrtm1² = −1 (mod p)`, reduced -/
+theorem C13_sqrtm1_is_root_of_minus_one : (Ed.sqrtm1 * Ed.sqrtm1 + 1) % Ed.p = 0 ∧ Ed.sqrtm1 < Ed.p := by decide
+/-- the base point: `y = 4/5 (mod p)` (reduced, sign bit clear in the encoding `Gy`), `x` the even ("positive") root — the
+base point of RFC 8032; `Ed.G` is the strict decoding of `Gy` -/
+theorem C13_G_is_ed25519 : (5 * Ed.Gy) % Ed.p = 4 ∧ Ed.Gy < Ed.p ∧ Ed.decompress Ed.Gy = some Ed.G ∧
+    Ed.G.y = Ed.Gy ∧ Ed.G.x % 2 = 0 := by
+  have h1 : (5 * Ed.Gy) % Ed.p = 4 := by decide
+  have h2 : Ed.Gy < Ed.p := by decide
+  have h3 : Ed.Gy < 2 ^ 255 := by decide
+  obtain ⟨-, -, hy, hx⟩ := Monero.Edw.decompress_spec Ed.Gy Monero.Edw.Gy_lt Ed.G Monero.Edw.decompress_Gy
+  refine ⟨h1, h2, Monero.Edw.decompress_Gy, ?_, ?_⟩
+  · rw [hy]; exact Nat.mod_eq_of_lt h3
+  · rw [hx]; exact Nat.div_eq_of_lt h3
+end Constants
+
+/-- negative zero, every 32-byte string: sign bit set and y field 1 or p − 1 (the two y with x = 0) is refused -/
+theorem C13_rejects_negative_zero_bytes (b : Bytes) (hlen : b.length = 32) (hs : leNat b / 2 ^ 255 = 1)
+    (hy : leNat b % 2 ^ 255 = 1 ∨ leNat b % 2 ^ 255 = Ed.p - 1) : publicAccept b = false := by
+  have hb : toBytesLE (leNat b) 32 = b := by rw [← hlen]; exact toBytesLE_leNat b
+  have hdm := Nat.div_add_mod (leNat b) (2 ^ 255)
+  obtain ⟨n1, n2, -, -⟩ := C13_rejects_negative_zero_encodings
+  rcases hy with hy | hy
+  · have : leNat b = 1 + 2 ^ 255 := by omega
+    rw [← hb, this]; exact n1
+  · have hp : Ed.p = 2 ^ 255 - 19 := rfl
+    have : leNat b = Ed.p - 1 + 2 ^ 255 := by rw [hp] at hy ⊢; omega
+    rw [← hb, this]; exact n2
+example : ∃ b : Bytes, b.length = 32 ∧ leNat b / 2 ^ 255 = 1 ∧ leNat b % 2 ^ 255 = 1 :=
+  ⟨toBytesLE (1 + 2 ^ 255) 32, by decide +kernel⟩
+
+/-- the hypothesis `hx0` of `C13_rejects_negative_zero` holds for the y fields 1 and p − 1: on the curve, y² = 1 forces
+x = 0 (`x²·(1 + d) = 0` and `1 + d ≠ 0` in the field GF(p); uses primality of p) -/
+theorem C13_only_x_zero_at_y_pm_one (y : Nat) (hy : y = 1 ∨ y = Ed.p - 1) (x : Nat) (hx : x < Ed.p)
+    (hc : (y * y) % Ed.p = (1 + x * x + Ed.d * (x * x) * (y * y)) % Ed.p) : x = 0 := by
+  have hyy : ((y : ℕ) : F) * (y : F) = 1 := by
+    rcases hy with rfl | rfl
+    · simp
+    · have : (((Ed.p - 1 : ℕ)) : F) = -1 := by
+        rw [Nat.cast_sub (Nat.le_of_lt p_gt_one), cast_p]; simp
+      rw [this]; ring
+  have h := (cast_eq_iff _ _).mpr hc
+  push_cast at h
+  have hd1 : ((1 : F) + (Ed.d : F)) ≠ 0 := by
+    have hne : ((1 + Ed.d : ℕ) : F) ≠ ((0 : ℕ) : F) := by
+      rw [Ne, cast_eq_iff]; decide
+    simpa using hne
+  have hxx : ((x : F) * (x : F)) * (1 + (Ed.d : F)) = 0 := by
+    rw [mul_assoc (Ed.d : F), hyy] at h
+    linear_combination (-1 : F) * h
+  have hx0 : (x : F) = 0 := by
+    rcases mul_eq_zero.mp hxx with h1 | h1
+    · rcases mul_eq_zero.mp h1 with h2 | h2 <;> exact h2
+    · exact absurd h1 hd1
+  exact cast_eq_zero_lt x hx hx0
+
+/-- `C13_rejects_negative_zero` instantiated (its hypothesis discharged by `C13_only_x_zero_at_y_pm_one`): an independent,
+non-computational proof that both negative-zero encodings are refused -/
+theorem C13_rejects_negative_zero_instantiated (b : Bytes) (hs : leNat b / 2 ^ 255 = 1)
+    (hy : leNat b % 2 ^ 255 = 1 ∨ leNat b % 2 ^ 255 = Ed.p - 1) : publicAccept b = false :=
+  C13_rejects_negative_zero b hs fun x hx hc => by
+    rw [C13_only_x_zero_at_y_pm_one _ hy x hx hc]
+
+/-! ### converses at the other entry points: what comes out of the text / consensus parsers is an accepted key -/
+theorem C13_from_str_sound (s : List Char) (k : Bytes) :
+    (publicFromStr s = some k → hexDecode s = some k ∧ publicAccept k = true) ∧
+    (secretFromStr s = some k → hexDecode s = some k ∧ secretAccept k = true) := by
+  constructor
+  · intro h
+    unfold publicFromStr at h
+    cases hd : hexDecode s with
+    | none => simp [hd] at h
+    | some b =>
+      simp only [hd] at h
+      unfold publicFromSlice at h
+      by_cases ha : publicAccept b = true
+      · rw [if_pos ha] at h
+        have : b = k := by simpa using h
+        subst this; exact ⟨rfl, ha⟩
+      · rw [if_neg ha] at h; exact absurd h (by simp)
+  · intro h
+    unfold secretFromStr at h
+    cases hd : hexDecode s with
+    | none => simp [hd] at h
+    | some b =>
+      simp only [hd] at h
+      unfold secretFromSlice at h
+      by_cases ha : secretAccept b = true
+      · rw [if_pos ha] at h
+        have : b = k := by simpa using h
+        subst this; exact ⟨rfl, ha⟩
+      · rw [if_neg ha] at h; exact absurd h (by simp)
+
+/-- `Display` is lowercase hexadecimal, two digits per byte, high nibble first — stated against the digit string, not against
+the model's own `hexDigit` -/
+theorem C13_display_is_lowercase_hex (k : Bytes) :
+    keyToString k = k.flatMap (fun b => ["0123456789abcdef".toList.getD (b.toNat / 16) '?',
+                                          "0123456789abcdef".toList.getD (b.toNat % 16) '?']) := by
+  have hd : ∀ n, n < 16 → hexDigit n = "0123456789abcdef".toList.getD n '?' := by decide
+  unfold keyToString
+  induction k with
+  | nil => rfl
+  | cons b t ih =>
+    have h1 : b.toNat / 16 < 16 := by have := b.toNat_lt; omega
+    have h2 : b.toNat % 16 < 16 := Nat.mod_lt _ (by norm_num)
+    rw [hexEncode, ih, List.flatMap_cons, hd _ h1, hd _ h2]
+    rfl
+example : keyToString [0x0a, 0xff, 0x10] = "0aff10".toList := by decide
+
+/-- the consensus decoders consume exactly the 32 key bytes, return them unchanged, leave the rest, and only return accepted keys -/
+theorem C13_consensus_decode_sound (inp k rest : Bytes) :
+    (publicConsensusDecode inp = some (k, rest) → inp = consensusEncode k ++ rest ∧ k.length = 32 ∧ publicAccept k = true) ∧
+    (secretConsensusDecode inp = some (k, rest) → inp = consensusEncode k ++ rest ∧ k.length = 32 ∧ secretAccept k = true) := by
+  have key : ∀ accept : Bytes → Bool, consensusDecodeWith accept inp = some (k, rest) →
+      inp = consensusEncode k ++ rest ∧ k.length = 32 ∧ accept k = true := by
+    intro accept h
+    unfold consensusDecodeWith takeN at h
+    by_cases hl : inp.length < 32
+    · rw [if_pos hl] at h; exact absurd h (by simp)
+    · rw [if_neg hl] at h
+      simp only [] at h
+      by_cases ha : accept (inp.take 32) = true
+      · rw [if_pos ha] at h
+        simp only [Option.some.injEq, Prod.mk.injEq] at h
+        obtain ⟨h1, h2⟩ := h
+        subst h1; subst h2
+        refine ⟨(List.take_append_drop 32 inp).symm, ?_, ha⟩
+        rw [List.length_take]; omega
+      · rw [if_neg ha] at h; exact absurd h (by simp)
+  exact ⟨key publicAccept, key secretAccept⟩
+example : publicConsensusDecode (toBytesLE Ed.Gy 32 ++ [7]) = some (toBytesLE Ed.Gy 32, [7]) := by decide +kernel
+
 /-! ### key arithmetic is the group law
 
 The spec side of the arithmetic operations (`c13_pub_of`, `c13_add`, `c13_sub`, `c13_smul`: what dalek's results are compared
@@ -153,5 +292,116 @@ theorem C13_base_point_order : addOrderOf edOps.base = Ed.l := addOrderOf_base
 /-- the encoding is injective on points and strict decoding inverts it: accepted key bytes and curve points correspond one to one -/
 theorem C13_encoding_bijective : Function.Injective edOps.enc ∧ ∀ A : EdPoint, edOps.dec (edOps.enc A) = some A :=
   ⟨edOps_lawful.enc_inj, edOps_lawful.dec_enc⟩
+
+/-! ### the identities of the property, in the group (scalars are arbitrary integers; the library reduces them modulo `l`) -/
+/-- `pub(a + b) = pub(a) + pub(b)` where the scalar sum is reduced modulo `l` -/
+theorem C13_pub_add (a b : ℕ) : ((a + b) % Ed.l) • edOps.base = a • edOps.base + b • edOps.base := by
+  have h := edOps_lawful.smul_mod_base (a + b)
+  rw [edOps_l] at h
+  rw [h, add_smul]
+/-- `a·(b·G) = (a·b mod l)·G` -/
+theorem C13_smul_smul (a b : ℕ) : a • (b • edOps.base) = ((a * b) % Ed.l) • edOps.base := by
+  have h := edOps_lawful.smul_mod_base (a * b)
+  rw [edOps_l] at h
+  rw [h, mul_smul]
+/-- `(P + Q) − Q = P`, `P − P = 0`, `P + 0 = P`, `a·(P + Q) = a·P + a·Q` for ALL curve points (torsion included) -/
+theorem C13_add_sub (P Q : EdPoint) : P + Q - Q = P ∧ P - P = 0 ∧ P + 0 = P := ⟨add_sub_cancel_right P Q, sub_self P, add_zero P⟩
+theorem C13_smul_distrib (a : ℕ) (P Q : EdPoint) : a • (P + Q) = a • P + a • Q := smul_add a P Q
+/-- reduced scalars give equal public keys only when equal (the base point has order exactly `l`) -/
+theorem C13_pub_injective (a b : ℕ) (ha : a < Ed.l) (hb : b < Ed.l) (h : a • edOps.base = b • edOps.base) : a = b := by
+  have hm : a ≡ b [MOD addOrderOf edOps.base] := nsmul_eq_nsmul_iff_modEq.mp h
+  rw [addOrderOf_base] at hm
+  exact Nat.ModEq.eq_of_lt_of_lt hm ha hb
+
+/-! ### the operator model of key.rs (`Model/KeyOps.lean`), byte level: decode ∘ group operation ∘ encode, closure, no panic -/
+/-- `a + b` on accepted keys: both operands decode (strictly) to curve points `A`, `B`; the operator (permissive `point()`,
+extended-coordinate addition, recompression) does not panic and returns the encoding of `A + B`, which is an accepted key -/
+theorem C13_add_bytes (a b : Bytes) (ha : publicAccept a = true) (hb : publicAccept b = true) :
+    ∃ A B : EdPoint, edOps.dec a = some A ∧ edOps.dec b = some B ∧
+      keyAdd a b = some (edOps.enc (A + B)) ∧ publicAccept (edOps.enc (A + B)) = true := by
+  obtain ⟨A, hA, eA⟩ := dec_of_accept a ha
+  obtain ⟨B, hB, eB⟩ := dec_of_accept b hb
+  refine ⟨A, B, hA, hB, ?_, publicAccept_enc _⟩
+  have := keyAdd_enc A B
+  rwa [eA, eB] at this
+theorem C13_sub_bytes (a b : Bytes) (ha : publicAccept a = true) (hb : publicAccept b = true) :
+    ∃ A B : EdPoint, edOps.dec a = some A ∧ edOps.dec b = some B ∧
+      keySub a b = some (edOps.enc (A - B)) ∧ publicAccept (edOps.enc (A - B)) = true := by
+  obtain ⟨A, hA, eA⟩ := dec_of_accept a ha
+  obtain ⟨B, hB, eB⟩ := dec_of_accept b hb
+  refine ⟨A, B, hA, hB, ?_, publicAccept_enc _⟩
+  have := keySub_enc A B
+  rwa [eA, eB] at this
+/-- `s * P` (all three operator forms) on an accepted secret key `s` and an accepted public key -/
+theorem C13_smul_bytes (s k : Bytes) (hs : secretAccept s = true) (hk : publicAccept k = true) :
+    ∃ A : EdPoint, edOps.dec k = some A ∧
+      keySmul s k = some (edOps.enc (Ed.leNat s • A)) ∧ publicAccept (edOps.enc (Ed.leNat s • A)) = true := by
+  obtain ⟨A, hA, eA⟩ := dec_of_accept k hk
+  refine ⟨A, hA, ?_, publicAccept_enc _⟩
+  have := keySmul_enc s (secret_lt_260 s hs) A
+  rwa [eA] at this
+/-- `PublicKey::from_private_key` on an accepted secret key: the encoding of `int(s)·G`, an accepted key -/
+theorem C13_pub_of_bytes (s : Bytes) (hs : secretAccept s = true) :
+    keyPubOf s = edOps.enc (Ed.leNat s • edOps.base) ∧ publicAccept (keyPubOf s) = true := by
+  have h := keyPubOf_eq s (secret_lt_260 s hs)
+  exact ⟨h, by rw [h]; exact publicAccept_enc _⟩
+/-- scalar addition / multiplication (`sk + sk`, `sk * sk`, `sk * u8`) are arithmetic modulo `l`, and the result is an
+accepted secret key (for all operand byte strings) -/
+theorem C13_scalar_ops (a b : Bytes) (n : ℕ) :
+    (secretAccept (scalarAdd a b) = true ∧ Ed.leNat (scalarAdd a b) = (Ed.leNat a + Ed.leNat b) % Ed.l) ∧
+    (secretAccept (scalarMul a b) = true ∧ Ed.leNat (scalarMul a b) = (Ed.leNat a * Ed.leNat b) % Ed.l) ∧
+    (secretAccept (scalarMulU8 a n) = true ∧ Ed.leNat (scalarMulU8 a n) = (Ed.leNat a * (n % 256)) % Ed.l) :=
+  ⟨secretAccept_toBytesLE _ (Nat.mod_lt _ Monero.Keys.l_pos), secretAccept_toBytesLE _ (Nat.mod_lt _ Monero.Keys.l_pos),
+   secretAccept_toBytesLE _ (Nat.mod_lt _ Monero.Keys.l_pos)⟩
+/-- the harness operations (`from_slice` of each operand, then the operator) never reach the `expect` of `point()` -/
+theorem C13_operators_no_panic (a b s : Bytes) :
+    opAdd a b ≠ some none ∧ opSub a b ≠ some none ∧ opSmul s a ≠ some none := by
+  refine ⟨?_, ?_, ?_⟩
+  · unfold opAdd publicFromSlice
+    by_cases ha : publicAccept a = true
+    · by_cases hb : publicAccept b = true
+      · obtain ⟨A, B, -, -, h, -⟩ := C13_add_bytes a b ha hb
+        simp [ha, hb, h]
+      · simp [ha, hb]
+    · simp [ha]
+  · unfold opSub publicFromSlice
+    by_cases ha : publicAccept a = true
+    · by_cases hb : publicAccept b = true
+      · obtain ⟨A, B, -, -, h, -⟩ := C13_sub_bytes a b ha hb
+        simp [ha, hb, h]
+      · simp [ha, hb]
+    · simp [ha]
+  · unfold opSmul publicFromSlice secretFromSlice
+    by_cases hs : secretAccept s = true
+    · by_cases ha : publicAccept a = true
+      · obtain ⟨A, -, h, -⟩ := C13_smul_bytes s a hs ha
+        simp [hs, ha, h]
+      · simp [hs, ha]
+    · simp [hs]
+
+/-! ### the identities of the property on the operator model, byte level -/
+/-- `pub(a) + pub(b) = pub(a + b)` -/
+theorem C13_pub_add_bytes (a b : Bytes) (ha : secretAccept a = true) (hb : secretAccept b = true) :
+    keyAdd (keyPubOf a) (keyPubOf b) = some (keyPubOf (scalarAdd a b)) := by
+  obtain ⟨⟨hs, hv⟩, -, -⟩ := C13_scalar_ops a b 0
+  rw [keyPubOf_eq a (secret_lt_260 a ha), keyPubOf_eq b (secret_lt_260 b hb), keyPubOf_eq _ (secret_lt_260 _ hs), hv,
+    keyAdd_enc, C13_pub_add]
+/-- `a * (b * G) = (a·b) * G` -/
+theorem C13_smul_pub_bytes (a b : Bytes) (ha : secretAccept a = true) (hb : secretAccept b = true) :
+    keySmul a (keyPubOf b) = some (keyPubOf (scalarMul a b)) := by
+  obtain ⟨-, ⟨hs, hv⟩, -⟩ := C13_scalar_ops a b 0
+  rw [keyPubOf_eq b (secret_lt_260 b hb), keyPubOf_eq _ (secret_lt_260 _ hs), hv,
+    keySmul_enc a (secret_lt_260 a ha), C13_smul_smul]
+/-- `(P + Q) − Q = P` -/
+theorem C13_add_sub_bytes (p q : Bytes) (hp : publicAccept p = true) (hq : publicAccept q = true) :
+    ∃ r, keyAdd p q = some r ∧ keySub r q = some p := by
+  obtain ⟨A, -, eA⟩ := dec_of_accept p hp
+  obtain ⟨B, -, eB⟩ := dec_of_accept q hq
+  refine ⟨edOps.enc (A + B), ?_, ?_⟩
+  · have := keyAdd_enc A B; rwa [eA, eB] at this
+  · have := keySub_enc (A + B) B
+    rwa [add_sub_cancel_right, eA, eB] at this
+/-- the hypotheses are satisfiable -/
+example : secretAccept (toBytesLE 5 32) = true := by decide +kernel
 end GroupLaw
 end C13
